@@ -505,6 +505,7 @@ def process_fn(unit, lines, i, arg, rel_tpl):
     sections = [('spec', None, [])]
     renames = dict(unit.filerename.get(rel, {}))
     subs = []
+    suball = []
     attrs = []
     while j < len(lines) and lines[j].strip() != '//@end':
         s = lines[j].strip()
@@ -521,6 +522,11 @@ def process_fn(unit, lines, i, arg, rel_tpl):
             attrs.append(s[len('//@attr'):].strip())
         elif s.startswith('//@rename'):
             renames.update(dict(p.split('=') for p in s.split()[1:]))
+        elif s.startswith('//@suball'):
+            parts_ = s[len('//@suball'):].split(' ==> ', 1)
+            if len(parts_) != 2:
+                raise AssembleError('bad //@suball at %s:%d' % (rel_tpl, j + 1))
+            suball.append((parts_[0].strip(), parts_[1].strip()))
         elif s.startswith('//@sub'):
             parts_ = s[len('//@sub'):].split(' ==> ', 1)
             if len(parts_) != 2:
@@ -587,6 +593,14 @@ def process_fn(unit, lines, i, arg, rel_tpl):
     sig = re.sub(r'^(\s*)pub\(crate\)\s+', r'\1pub ', sig)
     sig = tokens_rename(sig, renames, st)
     body = tokens_rename(body, renames, st)
+    for old, new in suball:
+        rx = r'\s*'.join(re.escape(ch) for ch in old if not ch.isspace())
+        if old[:1].isalnum() or old[:1] == '_':
+            rx = r'(?<![\w])' + rx
+        body, cnt = re.subn(rx, lambda m_: new, body)
+        if cnt < 1:
+            raise AssembleError('fn %s: //@suball anchor %r matched 0 times' % (name, old))
+        st['Rsub_declared'] = st.get('Rsub_declared', 0) + cnt
     for old, new in subs:
         # whitespace-insensitive, must match exactly once
         rx = r'\s*'.join(re.escape(ch) for ch in old if not ch.isspace())
